@@ -9,6 +9,9 @@ CLAIMED = {
  "C02": ("metamorphic relation over histories (proptest vec of prior compilations incl. identifier-permuting sheets), fresh-process repeats and concurrent thread storms; oracle = byte equality with the fresh-thread run; unique-id() distinctness",
          "Sampling of histories, process repeats and real thread interleavings; a green run means no dependence on earlier compilations, hash seeds or concurrent threads was observed among the generated cases beyond the listed known findings.",
          "2/C02"),
+ "C05": ("generated value-heavy sheets (proptest) and the enumerated corpus x style x allows_charset; oracles = UTF-8 validity, independent CSS tokenizer (balance, termination), Sass-leftover scan, charset/BOM rule, and the round trip output -> plain-CSS compile -> same canonical token tree",
+         "Sampling plus enumeration of the corpus; a green run means every explored successful compilation produced well-formed Sass-free CSS that the compiler reproduces from its own output. Outputs that are not CSS-representable by an independent token criterion are discarded and counted.",
+         "2/C05"),
  "C06": ("metamorphic relation expanded vs compressed over the whole corpus (enumerated) and proptest-generated value-heavy sheets; oracle = independent CSS tokenizer/canonicaliser (numbers by exact decimal value, colours as rgba), textual equality of selectors, property names, string contents and logger messages",
          "Sampling plus complete enumeration of the golden corpus; a green run means the two styles described the same CSS for every explored input outside the listed known finding (style-dependent interpolation).",
          "2/C06"),
